@@ -16,7 +16,7 @@ from lib import gz, gtext, glist, gbool, gopt, gpair
 THEOREMS = ['C03_s2cmi_rank', 'C03_request_fidelity', 'C03_qs_roundtrip', 'C03_get_fidelity',
             'C03_flatten_roundtrip', 'C03_request_fidelity_pinned_refuted',
             'C03_request_fidelity_pinned_strict_refuted', 'C03_flatten_roundtrip_refuted',
-            'C03_response_fidelity']
+            'C03_response_fidelity', 'C03_header_date_instant']
 SRC_THEOREMS = ['C03_source_tie']
 
 IMPORTS = 'From SpyneV Require Import Base.Prelude C03.Model C03.Check C03.Spec.'
@@ -93,13 +93,23 @@ class Gen(object):
                     prev = [t for _, t in fields if t['k'] == 'obj']
                     if prev:
                         t = dict(r.choice(prev))
-                        t['arr'] = r.random() < 0.4
-                        t['style'] = r.choice('AM')
+                        if r.random() < 0.5:
+                            # a different member type over the same class
+                            t['arr'] = r.random() < 0.4
+                            t['style'] = r.choice('AM')
+                        elif r.random() < 0.6:
+                            # the very same member type OBJECT (arr = Array(Item) / Item.customize(max_occurs=..)
+                            # created once and used for several sibling members), preferably an array
+                            t['arr'] = True
                         fields.append((nm, t))
                         continue
                 fields.append((nm, self.obj(depth - 1)))
             else:
-                fields.append((nm, self.prim()))
+                prevp = [t for _, t in fields if t['k'] == 'prim' and t['arr']]
+                if prevp and r.random() < 0.3:
+                    fields.append((nm, dict(r.choice(prevp))))      # the same primitive array type object again
+                else:
+                    fields.append((nm, self.prim()))
         return {'k': 'obj', 'arr': (r.random() < 0.45) if arr is None else arr, 'style': r.choice('AM'),
                 'cid': self.cid, 'fields': fields}
 
@@ -344,17 +354,27 @@ class Impl(object):
         const.MIN_GC_INTERVAL = 1e12
         self.n = 0
         self.classes = {}
+        self.mtypes = {}
         self.apps = {}
         self.cap = []
 
     def member(self, t):
+        """the member type; an array type over the same item class and of the same style is created ONCE and the
+        same type object is used for every member that asks for it (siblings, arguments, nested)"""
         sp = self.sp
         if t['k'] == 'prim':
             base = sp['Unicode'] if t['leaf'] == 'u' else sp['Integer']
+            bkey = t['leaf']
         else:
             base = self.cls(t)
+            bkey = id(base)
         if t['arr']:
-            return sp['Array'](base) if t['style'] == 'A' else base.customize(max_occurs='unbounded')
+            k = (bkey, t['style'])
+            mt = self.mtypes.get(k)
+            if mt is None:
+                mt = sp['Array'](base) if t['style'] == 'A' else base.customize(max_occurs='unbounded')
+                self.mtypes[k] = mt
+            return mt
         return base
 
     def cls(self, t):
@@ -410,6 +430,7 @@ class Impl(object):
         from spyne.util import memo
         self.apps.clear()
         self.classes.clear()
+        self.mtypes.clear()
         for m in memo.memoize.registry:
             if getattr(m.func, '__name__', '') == 'get_simple_type_info_with_prot':
                 m.reset()
@@ -1022,6 +1043,17 @@ def corpus(g):
     iv = lambda k: ['O', [['i', ['S', str(k)]], ['s', ['S', 'v%d' % k]], ['xs', ['N']]]]
     v4 = ['O', [['a', iv(1)], ['b', iv(2)], ['o', ['O', [['p', iv(3)], ['q', ['A', [[0, iv(4)], [1, iv(5)]]]]]]]]]
     out.append((f4, v4, False, False))
+    # ONE array type object for two arguments and for two sibling members, sparse interleaved indexes
+    arr = dict(inner, arr=True, cid=900004)
+    f5 = [('x', arr), ('y', arr), ('o', {'k': 'obj', 'arr': False, 'style': 'A', 'cid': 900005,
+                                        'fields': [('p', arr), ('q', arr)]})]
+    av = lambda ks: ['A', [[k, iv(k)] for k in ks]]
+    v5 = ['O', [['x', av([1, 4, 9])], ['y', av([0, 4, 5, 30])], ['o', ['O', [['p', av([7, 8])], ['q', av([2, 7, 11])]]]]]]
+    out.append((f5, v5, False, False))
+    v6 = ['O', [['x', av([0, 1])], ['y', av([0, 1, 2])], ['o', ['O', [['p', av([0])], ['q', av([0, 1])]]]]]]
+    out.append((f5, v6, False, True))
+    f7 = [(n, dict(t, style='M')) if t.get('arr') else (n, t) for n, t in f5[:2]]
+    out.append((f7, ['O', v5[1][:2]], False, False))
     return out
 
 def oracle_get(check, impl, tier):
@@ -1173,19 +1205,81 @@ def unspellable_case(impl, fields, top, v):
             'observed': list(o)}
 
 
+def gen_header_datetime(rng):
+    """a datetime for a DateTime header: aware with a non-zero offset (most), aware UTC, or naive (read as UTC);
+    returns (value, seconds since the epoch of the instant it denotes)"""
+    import datetime as D
+    y = rng.choice([1970, 1971, 1994, 1999, 2000, 2024, 2026, 2038, 2099, rng.randint(1901, 2198)])
+    mo = rng.randint(1, 12)
+    d = rng.randint(1, 28) if rng.random() < 0.7 else rng.choice([1, 28, 29, 30, 31])
+    try:
+        base = D.datetime(y, mo, d, rng.choice([0, 1, 11, 12, 22, 23, rng.randint(0, 23)]), rng.choice([0, 29, 30, 59]),
+                          rng.choice([0, 1, 59, rng.randint(0, 59)]), rng.choice([0, 0, 999999, rng.randint(0, 999999)]))
+    except ValueError:
+        base = D.datetime(y, mo, 28, 23, 59, 59)
+    r = rng.random()
+    if r < 0.7:
+        off = rng.choice([-720, -570, -300, -60, -1, 1, 60, 330, 345, 540, 765, 840, rng.randint(-839, 839)]) or 60
+        val = base.replace(tzinfo=D.timezone(D.timedelta(minutes=off)))
+    elif r < 0.85:
+        val = base.replace(tzinfo=D.timezone.utc)
+    else:
+        val = base
+    aware = val if val.tzinfo is not None else val.replace(tzinfo=D.timezone.utc)
+    epoch = (aware - D.datetime(1970, 1, 1, tzinfo=D.timezone.utc)) // D.timedelta(seconds=1)
+    return val, epoch
+
+
 def oracle_response(check, impl, tier):
-    """a single primitive return value is sent as its exact text, with the declared headers"""
-    from spyne import Unicode, Integer, ComplexModel, ByteArray
+    """a single primitive return value is sent as its exact text, with the declared headers; a DateTime header is
+    the RFC 7231 date of the INSTANT (email.utils.formatdate as the reference, Model.imf_fixdate as the model)"""
+    import datetime as D
+    from email.utils import formatdate
+    from spyne import Unicode, Integer, ComplexModel, ByteArray, DateTime, Date, Time
     from spyne.model.primitive import String
+    from spyne.protocol.http import _header_to_bytes, HttpRpc
     rng = check.rng
     g = Gen(rng)
     n = 60 if tier == 'quick' else 300
     H = ComplexModel.__class__('C03RespHeader', (ComplexModel,),
                                {'_type_info': [('X-Count', Integer), ('Set-Cookie', String(max_occurs='unbounded')),
-                                               ('X-Note', Unicode)], '__namespace__': 'c03'})
-    hfs = [('X-Count', {'k': 'prim', 'arr': False}), ('Set-Cookie', {'k': 'prim', 'arr': True}),
-           ('X-Note', {'k': 'prim', 'arr': False})]
-    rcases = []
+                                               ('X-Note', Unicode), ('Expires', DateTime), ('Last-Modified', DateTime),
+                                               ('X-Day', Date), ('X-Time', Time),
+                                               ('X-Tag', Unicode(max_occurs='unbounded'))], '__namespace__': 'c03'})
+    P = lambda arr: {'k': 'prim', 'arr': arr}
+    hfs = [('X-Count', P(False)), ('Set-Cookie', P(True)), ('X-Note', P(False)), ('Expires', P(False)),
+           ('Last-Modified', P(False)), ('X-Day', P(False)), ('X-Time', P(False)), ('X-Tag', P(True))]
+    rcases, dcases = [], []
+    prot = HttpRpc()
+    # the header codec alone: model (function of the instant) vs _header_to_bytes
+    for i in range(4 * n):
+        val, epoch = gen_header_datetime(rng)
+        try:
+            got = _header_to_bytes(prot, val, DateTime)
+        except Exception as e:
+            got = 'EXC %s' % type(e).__name__
+        ref = formatdate(epoch, usegmt=True)
+        check.count(('hdate', val.isoformat()))
+        if got != ref:
+            check.fail('C03|response|header-date|%s' % ('aware-offset' if val.utcoffset() else ('aware-utc' if val.tzinfo else 'naive')),
+                       '_header_to_bytes(%s) = %r, the RFC 7231 date of that instant is %r' % (val.isoformat(), got, ref),
+                       {'kind': 'header-date', 'value': val.isoformat(), 'epoch': epoch, 'observed': got, 'expected': ref})
+        dcases.append(('(%s, %s)' % (gz(epoch), gtext(got)), '_header_to_bytes(%s) epoch=%d' % (val.isoformat(), epoch)))
+    # members that are not DateTime are written with to_unicode: Date and Time as their ISO text
+    for cls, name, v in ((Date, 'Date', D.date(rng.randint(1900, 2199), rng.randint(1, 12), rng.randint(1, 28))),
+                         (Time, 'Time', D.time(rng.randint(0, 23), rng.randint(0, 59), rng.randint(0, 59))),
+                         (Integer, 'Integer', rng.randint(-10 ** 9, 10 ** 20)), (Unicode, 'Unicode', g.text('u') or 'x')):
+        try:
+            got = _header_to_bytes(prot, v, cls)
+        except Exception as e:
+            got = 'EXC %s' % type(e).__name__
+        ref = v.isoformat() if name in ('Date', 'Time') else str(v)
+        check.count(('hcodec', name, repr(v)))
+        if got != ref:
+            check.fail('C03|response|header-codec|%s' % name, '_header_to_bytes(%r : %s) = %r, expected %r' % (v, name, got, ref),
+                       {'kind': 'header-codec', 'type': name, 'value': repr(v), 'observed': got, 'expected': ref})
+    lib.correspond(check, 'header_date', IMPORTS, 'Z * text', '(fun c => text_eqb (imf_fixdate (fst c)) (snd c))', dcases,
+                   show='(fun c : Z * text => imf_fixdate (fst c))')
     for i in range(n):
         kind = rng.choice(['u', 'i', 'b'])
         if kind == 'u':
@@ -1198,40 +1292,52 @@ def oracle_response(check, impl, tier):
             raw = bytes(rng.randrange(256) for _ in range(rng.choice([1, 3, 8, 40])))
             val, rtype, body = [raw], ByteArray, raw
         cookies = ['c%d=%d' % (j, rng.randint(0, 99)) for j in range(rng.choice([0, 1, 2, 3]))]
+        tags = ['t%d' % rng.randint(0, 9) for j in range(rng.choice([0, 0, 1, 3]))]
         cnt = rng.randint(-5, 10 ** 12)
         note = ''.join(rng.choice('abcXYZ 019-_.') for _ in range(rng.choice([1, 4, 9]))).strip() or 'n'
+        exp_v, exp_e = gen_header_datetime(rng)
+        lm_v, lm_e = gen_header_datetime(rng) if rng.random() < 0.7 else (None, None)
+        day = D.date(rng.randint(1900, 2199), rng.randint(1, 12), rng.randint(1, 28)) if rng.random() < 0.6 else None
+        tod = D.time(rng.randint(0, 23), rng.randint(0, 59), rng.randint(0, 59)) if rng.random() < 0.6 else None
         hv = H()
-        setattr(hv, 'X-Count', cnt)
-        setattr(hv, 'Set-Cookie', cookies or None)
-        setattr(hv, 'X-Note', note)
+        for k, x in (('X-Count', cnt), ('Set-Cookie', cookies or None), ('X-Note', note), ('Expires', exp_v),
+                     ('Last-Modified', lm_v), ('X-Day', day), ('X-Time', tod), ('X-Tag', tags or None)):
+            setattr(hv, k, x)
         w = impl.app([('a', {'k': 'prim', 'arr': False, 'leaf': 'i', 'style': 'A'})], '.', False, None,
                      out_header=(H, hv), ret=(rtype, val))
         o, headers, got = impl.get(w, 'a=1')
-        check.count(('resp', kind, repr(val), cnt, tuple(cookies), note))
-        case = {'kind': 'response', 'rtype': kind, 'value': repr(val)}
+        check.count(('resp', kind, repr(val), cnt, tuple(cookies), note, exp_v.isoformat(), lm_v and lm_v.isoformat()))
+        case = {'kind': 'response', 'rtype': kind, 'value': repr(val), 'expires': exp_v.isoformat(),
+                'last_modified': lm_v and lm_v.isoformat()}
         if o[0] != 'ok':
             check.fail('C03|response|%s|not-200' % kind, 'returning %r gave %r' % (val, o), case)
             continue
         if got != body:
             check.fail('C03|response|%s|body' % kind, 'returning %r: body %r, expected %r' % (val, got, body), case)
         hl = [(k, v) for k, v in headers]
+        # what each declared member has to look like on the wire (reference, independent of spyne)
+        want = [('X-Count', [str(cnt)]), ('Set-Cookie', cookies), ('X-Note', [note]),
+                ('Expires', [formatdate(exp_e, usegmt=True)]),
+                ('Last-Modified', [formatdate(lm_e, usegmt=True)] if lm_v is not None else []),
+                ('X-Day', [day.isoformat()] if day is not None else []),
+                ('X-Time', [tod.isoformat()] if tod is not None else []), ('X-Tag', tags)]
+        for k, vs in want:
+            have = [v for k2, v in hl if k2 == k]
+            if have != vs:
+                sub = ('date-of-instant' if k in ('Expires', 'Last-Modified') else
+                       'order' if sorted(have) == sorted(vs) else 'count' if len(have) != len(vs) else 'value')
+                check.fail('C03|response|header|%s|%s' % (k, sub),
+                           'declared header %s: sent %r, expected %r (all headers %r; Expires=%s Last-Modified=%s)' % (
+                               k, have, vs, hl, exp_v.isoformat(), lm_v and lm_v.isoformat()), case)
         # model vs implementation: the whole header list and the body
         ct = [v for k, v in hl if k == 'Content-Type']
         if len(ct) == 1 and all(isinstance(v, str) for _, v in hl):
-            hinst = [['X-Count', ['S', str(cnt)]], ['Set-Cookie', ['L', cookies] if cookies else ['N']], ['X-Note', ['S', note]]]
+            hinst = [[k, (['L', vs] if vs else ['N']) if dict(hfs)[k]['arr'] else (['S', vs[0]] if vs else ['N'])] for k, vs in want]
             rcases.append(('(%s, %s, %s, %s, %s, %s)' % (
                 glist(['(%s, FOne %s)' % (gtext('Content-Type'), gtext(ct[0]))]), gfields(hfs), gobj(hinst),
                 glist([gtext(body.decode('latin1'))]),
                 glist(['(%s, %s)' % (gtext(k), gtext(v)) for k, v in hl]), gtext(got.decode('latin1'))),
                 'response returning %r with headers %r' % (val, hinst)))
-        exp = [('X-Count', str(cnt)), ('X-Note', note)] + [('Set-Cookie', c) for c in cookies]
-        for k, v in exp:
-            if (k, v) not in hl:
-                check.fail('C03|response|header|%s' % k, 'declared header %s: %s missing from %r' % (k, v, hl), case)
-        if len([1 for k, _ in hl if k == 'Set-Cookie']) != len(cookies):
-            check.fail('C03|response|header|Set-Cookie-count', 'headers %r, expected cookies %r' % (hl, cookies), case)
-        if [v for k, v in hl if k == 'Set-Cookie'] != cookies:
-            check.fail('C03|response|header|Set-Cookie-order', 'headers %r, expected cookies %r' % (hl, cookies), case)
         cl = [v for k, v in hl if k.lower() == 'content-length']
         if cl and cl != [str(len(body))]:
             check.fail('C03|response|header|Content-Length', 'Content-Length %r for a body of %d bytes' % (cl, len(body)), case)
@@ -1247,7 +1353,7 @@ def oracle_response(check, impl, tier):
 def run(check):
     tier = check.tier
     check.rule = ('generated signatures (1-4 members per class, depth <= 3, primitive / object / Array(T) / '
-                  'max_occurs>1 members, classes reused in several members), conformant sparse values (array lengths '
+                  'max_occurs>1 members, classes AND array type objects reused for several sibling members/arguments), conformant sparse values (array lengths '
                   '0-13, sparse or contiguous increasing indexes, primitive arrays as repeated or indexed keys), every '
                   'pair permutation for <= 4 distinct keys and seeded permutations above, 6 hier_delim choices, '
                   'strict_arrays on/off, validator None/soft, percent-encoding variants; plus a malformed-key stream '
@@ -1267,7 +1373,9 @@ def run(check):
         'read from the source on every run (harness/translate/flatkeys.py -> Gen/FlatKeys.v) and proved equal to the '
         'model (C03_source_tie): _s2cmi statement by statement, the regex literal, the strict_arrays comparisons, the '
         "'empty' marker, the index format, the separators of _parse_qs; compared by the source_flags correspondence: "
-        'the sort key of the main loop and the visited-set of get_simple_type_info_with_prot',
+        'the sort key of the main loop, the visited-set of get_simple_type_info_with_prot, that the index map is looked up '
+        'under id(list being built) with the list kept referenced, and that a Date header takes the plain path; also read '
+        'and proved equal to the model: the IMF-fixdate format and the weekday/month tables of _header_to_bytes',
         'primitive leaves are kept as text in the model: Unicode and canonical-decimal Integer members only (leaf codecs are C08)',
         'idxmap[id(list)] is modelled as a component of the array value (one map per list object; the repaired tree '
         'keeps every such list referenced so that an id cannot be reused during the call)',
@@ -1284,6 +1392,9 @@ def run(check):
         'pass on conformant input) but not modelled: the theorems are about validator=None',
         'percent escapes >= 0x80 (UTF-8) are outside the Coq model of unquote; they are covered by the direct oracle only',
         'POST/form bodies need werkzeug, which is not installed: that branch of decompose_incoming_envelope is unexercised',
+        'a DateTime header is modelled as a function of the INSTANT (Model.imf_fixdate; datetime.astimezone is trusted, '
+        'tied by the header_date correspondence on aware values with non-zero offsets and by the email.utils.formatdate '
+        'reference in the oracle); header_date_instant is proved for the years 1900-2199 by a sweep over the days',
         'response_fidelity covers header classes of primitive members and arrays of primitives; the body is the chunks '
         'to_bytes_iterable wrote (the text/bytes of a leaf is C08); the transport own headers (Content-Type) are taken as given',
     ]
@@ -1313,10 +1424,11 @@ def run(check):
     # the theorems are about unflatten with the natural sort and a per-branch type-info table: the
     # working tree must use both (read from the source by the flatkeys translator)
     lib.correspond(check, 'source_flags', 'From SpyneV Require Import Base.Prelude Gen.FlatKeys.', 'unit',
-                   '(fun _ => src_sort_natural && src_sti_per_branch)',
+                   '(fun _ => src_sort_natural && src_sti_per_branch && src_idxmap_keeps_list && src_date_header_plain)',
                    [('tt', 'simple_dict_to_object sorts with _natural_key and get_simple_type_info_with_prot '
                            'expands a class in every branch (Gen/FlatKeys.v: src_sort_natural, src_sti_per_branch)')],
-                   show='(fun _ : unit => (Gen.FlatKeys.src_sort_natural, Gen.FlatKeys.src_sti_per_branch))')
+                   show='(fun _ : unit => (Gen.FlatKeys.src_sort_natural, Gen.FlatKeys.src_sti_per_branch, Gen.FlatKeys.src_idxmap_keeps_list, '
+                        'Gen.FlatKeys.src_date_header_plain))')
     lib.flush_correspondences(check)
     check.extra['unexercised'] = ['HttpRpc POST/PUT/PATCH form-body branch (werkzeug absent)']
     return check.finish()
@@ -1338,6 +1450,32 @@ def replay(check, path):
         ok = o[0] == 'ok' and not problems and first_diff(['O', case['expected']], ['O', o[1]]) is None
         print('REPRODUCED' if not ok else 'does not reproduce')
         return 0 if ok else 1
+    if kind == 'header-codec':
+        import datetime as D
+        from spyne import Date, Time, Integer, Unicode
+        from spyne.protocol.http import _header_to_bytes, HttpRpc
+        cls = {'Date': Date, 'Time': Time, 'Integer': Integer, 'Unicode': Unicode}[case['type']]
+        v = eval(case['value'], {'datetime': D})
+        try:
+            got = _header_to_bytes(HttpRpc(), v, cls)
+        except Exception as e:
+            got = 'EXC %s' % type(e).__name__
+        print('value        :', case['value'], ':', case['type'])
+        print('expected     :', case['expected'])
+        print('observed now :', got)
+        print('REPRODUCED' if got != case['expected'] else 'does not reproduce')
+        return 0 if got == case['expected'] else 1
+    if kind == 'header-date':
+        import datetime as D
+        from spyne import DateTime
+        from spyne.protocol.http import _header_to_bytes, HttpRpc
+        v = D.datetime.fromisoformat(case['value'])
+        got = _header_to_bytes(HttpRpc(), v, DateTime)
+        print('value        :', case['value'], '(instant: %d s after the epoch)' % case['epoch'])
+        print('expected     :', case['expected'])
+        print('observed now :', got)
+        print('REPRODUCED' if got != case['expected'] else 'does not reproduce')
+        return 0 if got == case['expected'] else 1
     if kind == 'malformed':
         impl = Impl()
         fields = fix_fields(case['fields'])
